@@ -443,3 +443,91 @@ pub fn gen_cfg(rng: &mut Rng, variant: &str, hooks: bool) -> ArcCfg {
         key_seed: rng.u64(),
     }
 }
+
+// ------------------------------------------------------------------ stream-length model and alignment solver
+
+/// Length of the file-layer stream (blocks + end marker + index footer) that a VALID,
+/// finalized history produces. Mirrors FORMAT.md: FileStart 17+name, FileContent 17+len
+/// (none for an empty piece), EndOfFile 41, marker 1, index 8 + sum(8+name+8+8*runs+8+8) + 4,
+/// where `runs` = number of continuous runs of the file's blocks.
+pub fn stream_len(ops: &[WOp]) -> usize {
+    struct F {
+        name_len: usize,
+        runs: usize,
+    }
+    let mut files: Vec<F> = Vec::new();
+    let mut handle: BTreeMap<usize, usize> = BTreeMap::new();
+    let mut current: usize = 0; // the writer starts with current_id = 0
+    let mut pos = 0usize;
+    let mut finalized = false;
+    for op in ops {
+        match op {
+            WOp::Start { f, name } => {
+                let id = files.len();
+                handle.insert(*f, id);
+                let nl = name.string().len();
+                files.push(F { name_len: nl, runs: 1 });
+                current = id;
+                pos += 17 + nl;
+            }
+            WOp::Append { f, data, .. } => {
+                if let Some(&id) = handle.get(f) {
+                    if data.len() > 0 {
+                        if id != current {
+                            files[id].runs += 1;
+                            current = id;
+                        }
+                        pos += 17 + data.len();
+                    }
+                }
+            }
+            WOp::End { f } => {
+                if let Some(&id) = handle.get(f) {
+                    if id != current {
+                        files[id].runs += 1;
+                        current = id;
+                    }
+                    pos += 41;
+                }
+            }
+            WOp::Add { name, data, .. } => {
+                let id = files.len();
+                let nl = name.string().len();
+                files.push(F { name_len: nl, runs: 1 });
+                current = id;
+                pos += 17 + nl;
+                if data.len() > 0 {
+                    pos += 17 + data.len();
+                }
+                pos += 41;
+            }
+            WOp::Finalize => finalized = true,
+            _ => {}
+        }
+    }
+    if finalized {
+        pos += 1;
+        pos += 8 + files.iter().map(|f| 8 + f.name_len + 8 + 8 * f.runs + 8 + 8).sum::<usize>() + 4;
+    }
+    pos
+}
+
+/// Grow one non-empty piece so that the file-layer stream length becomes `residue` modulo
+/// `modulus` (how "plaintext length = k * CHUNK" or "= k * BLOCK" is hit on purpose instead
+/// of once in 131072 / 4194304). Returns false if the history has no non-empty piece.
+pub fn align_stream(ops: &mut [WOp], modulus: usize, residue: usize) -> bool {
+    let cur = stream_len(ops) % modulus;
+    let d = (residue % modulus + modulus - cur) % modulus;
+    if d == 0 {
+        return true;
+    }
+    for op in ops.iter_mut().rev() {
+        if let WOp::Append { data, src, .. } | WOp::Add { data, src, .. } = op {
+            if data.len() > 0 && src.short_by == 0 {
+                *data = data.with_len(data.len() + d);
+                return true;
+            }
+        }
+    }
+    false
+}
